@@ -438,6 +438,11 @@ func (r *rewriter) postSched(c *astutil.Cursor) {
 			} else if isChan(r.typeOf(n.Args[0])) {
 				r.rep.Skipped = append(r.rep.Skipped, site{Pos: r.fset.Position(n.Pos()).String(), Kind: "make of named chan type"})
 			}
+		case r.isPkgFunc(n.Fun, "github.com/ethereum/go-ethereum/rpc", "NewID") && len(n.Args) == 0:
+			// random subscription ids would make map iteration order (sorted by key) differ between replays of one schedule
+			sel := n.Fun.(*ast.SelectorExpr)
+			c.Replace(&ast.CallExpr{Fun: &ast.SelectorExpr{X: sel.X, Sel: ast.NewIdent("ID")},
+				Args: []ast.Expr{&ast.CallExpr{Fun: r.vrt("NextID"), Args: []ast.Expr{str(r.site(n, "rpc.NewID"))}}}})
 		case r.isBuiltin(n.Fun, "delete") && len(n.Args) == 2 && isMap(r.typeOf(n.Args[0])):
 			n.Args[0] = &ast.CallExpr{Fun: r.vrt("MapW"), Args: []ast.Expr{str(r.site(n, "map-delete")), n.Args[0]}}
 		case r.isBuiltin(n.Fun, "len") && len(n.Args) == 1 && isMap(r.typeOf(n.Args[0])):
